@@ -42,6 +42,8 @@ func (d Desc) Action() string {
 		return d.Act[1:]
 	case strings.HasPrefix(d.Act, "dup:"):
 		return d.Act[4:]
+	case strings.HasPrefix(d.Act, "pair:"):
+		return pairExecuted(d.Act)
 	}
 	return ""
 }
@@ -787,6 +789,19 @@ func bodyBytes(r *route, class string, fx Facts) ([]byte, bool, error) {
 	return nil, false, fmt.Errorf("unknown body class %s", class)
 }
 
+// pairExecuted: a request that names two routed actions (?action=a&action=b).  The router of this mux version matches a
+// Queries pair against the FIRST value of the key, and so does the state/action gate (checkAction reads
+// URL.Query().Get): the handler of the first name runs and the gate is evaluated for the same name.  (A first version of
+// this class assumed that the route registered first wins; the run on the unchanged tree showed the start handler
+// answering ?action=start&action=setrebuilding and the assumption was corrected before anything was claimed.)
+func pairExecuted(act string) string {
+	f := strings.Split(act, ":")
+	if len(f) != 3 {
+		return ""
+	}
+	return f[1]
+}
+
 // Build turns a descriptor into a concrete request.
 func Build(d Desc, fx Facts) (*Req, error) {
 	path := d.Tmpl
@@ -807,10 +822,16 @@ func Build(d Desc, fx Facts) (*Req, error) {
 		q = "?action=" + d.Act[4:] + "&action=nosuchaction"
 	case strings.HasPrefix(d.Act, "dup2:"):
 		q = "?action=nosuchaction&action=" + d.Act[5:]
+	case strings.HasPrefix(d.Act, "pair:"):
+		f := strings.Split(d.Act, ":")
+		q = "?action=" + f[1] + "&action=" + f[2]
 	default:
 		return nil, fmt.Errorf("bad action class %q", d.Act)
 	}
 	r, _ := match(d.Side, d.Method, d.Tmpl, d.Act)
+	if strings.HasPrefix(d.Act, "pair:") {
+		r, _ = match(d.Side, d.Method, d.Tmpl, "="+pairExecuted(d.Act))
+	}
 	if r == nil && strings.HasPrefix(d.Act, "dup") {
 		// a repeated key: the body family of the first value's route, if any
 		first := d.Act[strings.Index(d.Act, ":")+1:]
@@ -873,5 +894,20 @@ func C17Alphabet(side string, reduced bool) []Desc {
 		out = append(out, Desc{"R", "POST", tmpl, "1", "=" + a, "none", "j"}, Desc{"R", "POST", tmpl, "1", "=" + a, "obj", "j"})
 	}
 	out = append(out, Desc{"R", "POST", tmpl, "1", "unknown", "none", "j"}, Desc{"R", "DELETE", tmpl, "1", "-", "none", "j"})
+	// a request that names TWO routed actions: the state/action gate must hold for the action whose handler runs
+	for _, a := range replicaActions {
+		for _, b := range replicaActions {
+			if a == b {
+				continue
+			}
+			body := "none"
+			if r, _ := match("R", "POST", tmpl, "="+pairExecuted("pair:"+a+":"+b)); r != nil && r.Body != nil {
+				if order, _ := r.Body.base(); len(order) > 0 {
+					body = order[0]
+				}
+			}
+			out = append(out, Desc{"R", "POST", tmpl, "1", "pair:" + a + ":" + b, body, "j"})
+		}
+	}
 	return out
 }
